@@ -404,6 +404,23 @@ func schemaErrKind(msg string) string {
 	return "other"
 }
 
+// requiredWithDefault: the top-level attribute of the mutated site is required AND has a default.
+func requiredWithDefault(si *stepInfo) bool {
+	if si.M.Payload == nil {
+		return false
+	}
+	site := strings.TrimPrefix(si.Site, ".")
+	if i := strings.IndexAny(site, ".[{"); i >= 0 {
+		site = site[:i]
+	}
+	for _, f := range si.Design.AllFields(&si.M.Payload.T) {
+		if f.Name == site {
+			return f.Required && f.A.HasDef
+		}
+	}
+	return false
+}
+
 func siteLoc(si *stepInfo) string {
 	locOf, rootLoc := locator(si.M)
 	site := strings.TrimPrefix(si.Site, ".")
@@ -472,6 +489,8 @@ func classifyC14(it *built, si *stepInfo, ob *rt.Obs, serverAccepts bool, kinErr
 		return "bytes-length-counts-base64"
 	case len(si.Expected) == 1 && strings.HasSuffix(si.Expected[0].Path, ".key"):
 		return "map-key-validation-undocumented"
+	case len(si.Expected) == 1 && si.Expected[0].Kw == "required" && (siteLoc(si) == "header" || siteLoc(si) == "cookie") && requiredWithDefault(si):
+		return "openapi3-param-required-mismatch:" + siteLoc(si) + "-required-with-default"
 	case siteLoc(si) == "header" && strings.Contains(si.Site+si.Desc, "arr"):
 		return "header-array-style"
 	case si.DecodeFail && strings.Contains(si.Desc, "negative"):
